@@ -2,7 +2,7 @@
 
 Generated: internal-style problems (all rows are equalities c(x)=0; variable bounds of every
 kind), primal points with each component drawn from {strictly inside, exactly on a bound, within
-active_tol of a bound, outside the box}, multipliers, rho in 10^[-6,3], dt in 10^[-4,3],
+active_tol of a bound, outside the box}, multipliers, rho in 10^[-10,3] (the default 1e-8 included), dt in 10^[-4,3],
 active sets computed or arbitrary boolean vectors, explicit tau.
 
 Oracle: an independent dense numpy implementation built from the problem spec (``Ref``), written
@@ -92,9 +92,9 @@ def strategy(tier):
             "y": S.dvec(draw, m, -32, 32, 4.0),
             "x0": x0,
             "y0": S.dvec(draw, m, -32, 32, 4.0),
-            "rho": draw(st.sampled_from([1e-6, 1e-3, 0.5, 1.0, 7.0, 1e3])),
+            "rho": draw(st.sampled_from([1e-10, 1e-8, 1e-8, 1e-6, 1e-3, 0.5, 1.0, 7.0, 1e3])),
             "dt": draw(st.sampled_from([1e-4, 1e-2, 0.5, 1.0, 3.0, 1e3])),
-            "rho2": draw(st.sampled_from([1e-6, 1e-3, 0.5, 1.0, 7.0, 1e3])),
+            "rho2": draw(st.sampled_from([1e-10, 1e-8, 1e-8, 1e-6, 1e-3, 0.5, 1.0, 7.0, 1e3])),
             "active": draw(st.one_of(st.none(), st.lists(st.booleans(), min_size=n, max_size=n))),
             "tau": draw(st.one_of(st.none(), st.sampled_from([1e-3, 0.1, 1.0, 10.0]))),
             "rowfilter": draw(st.lists(st.booleans(), min_size=n, max_size=n)),
